@@ -13,6 +13,8 @@ def _kinds(kind, choices, want):
             kinds.append("C11/not-serializable@overlapping-journal-windows")
         elif r.get("stale"):
             kinds.append("C11/not-serializable@stale-base-append")
+        elif c11.report_straddles_git_command(r["seq"], r.get("is_git") or []):
+            kinds.append("C11/not-serializable@report-straddles-git-command")
         else:
             kinds.append("C11/not-serializable")
     kinds += [v["kind"] for v in r["viol"]]
@@ -29,3 +31,11 @@ def checkpoint_started_before_commit_lands_after():
     """D45: an agent report for b.txt starts (resolves HEAD) while `git commit` of a.txt is running and is scheduled entirely after the
     commit process exits: it appends to working_logs/<old HEAD>, which no later commit reads."""
     return _kinds("ckpt-commit", [0] * 40, None)
+
+
+def report_read_before_stash_appended_after():
+    """D74: S1's reported line in a.txt is pending; an agent report for b.txt starts and reads the journal (its list of files to look at
+    includes a.txt); `git stash push -- a.txt` then runs to completion (snapshots a.txt's attribution into the stash note, removes its
+    entries from the working log, reverts the file); the report continues, finds a.txt without agent lines and appends an entry for it
+    with no attribution, which later shadows the attribution that `stash pop` restores: S1's line is committed as human."""
+    return _kinds("ckpt-stash", [1, 1] + [0] * 38, None)
